@@ -8,6 +8,7 @@ mod codec;
 mod longrun;
 mod prod;
 mod tiny;
+mod twin;
 
 use mc_core::*;
 use tiny::Focus;
@@ -24,6 +25,7 @@ fn run(ctx: &Ctx) -> Report {
             prod::alignment_family(ctx, &mut rep, &mut unit);
             closure::encoder_closure(ctx, &mut rep, &mut unit);
             closure::decoder_closure(ctx, &mut rep, &mut unit);
+            twin::run(ctx, &mut rep, &mut unit);
             owning_iovec::verif::drain_quarantine();
             bigblock::run(ctx, &mut rep, &mut unit);
             longrun::run_roundtrip(ctx, &mut rep, &mut unit);
@@ -35,14 +37,18 @@ fn run(ctx: &Ctx) -> Report {
             prod::alignment_family(ctx, &mut rep, &mut unit);
             prod::find_stuff_exhaustive(ctx, &mut rep, &mut unit);
             closure::encoder_closure(ctx, &mut rep, &mut unit);
+            twin::run(ctx, &mut rep, &mut unit);
+            prod::length_sweep(ctx, &mut rep, &mut unit);
         }
         "C07" => {
             tiny::tier1(ctx, &mut rep, Focus::Format, &mut unit);
             tiny::decoder_accept_set(ctx, &mut rep, &mut unit);
             prod::boundary_family(ctx, &mut rep, Focus::Format, &mut unit);
             prod::decoder_header_space(ctx, &mut rep, &mut unit);
+            prod::length_sweep(ctx, &mut rep, &mut unit);
             closure::encoder_closure(ctx, &mut rep, &mut unit);
             closure::decoder_closure(ctx, &mut rep, &mut unit);
+            twin::run(ctx, &mut rep, &mut unit);
             owning_iovec::verif::drain_quarantine();
             bigblock::run(ctx, &mut rep, &mut unit);
             owning_iovec::verif::set_quarantine(true);
@@ -101,6 +107,9 @@ fn replay(ctx: &Ctx, text: &str) -> Result<String, String> {
     select_oracles(&ctx.prop);
     if field(text, "stream").is_some() {
         return longrun::replay(text);
+    }
+    if field(text, "twin").is_some() {
+        return twin::replay(text);
     }
     if field(text, "big").is_some() || field(text, "droppoint").is_some() {
         return bigblock::replay(text);
